@@ -35,6 +35,7 @@ type Options struct {
 	ChanCap  int  // capacity of the sample channels (0: production value 200)
 	DebugLCD bool
 	DebugCPU bool // instruction trace on standard output
+	SamePath bool // the ROM file is written under one and the same name for every instance of the process
 }
 
 type stopSentinel struct{}
@@ -328,6 +329,11 @@ func ClassifyStack(st string) (bool, string) {
 func New(img []byte, missing bool, opt Options) (*Machine, *PanicInfo) {
 	m := &Machine{}
 	path := filepath.Join(ScratchDir(), fmt.Sprintf("rom-%d-%d.gb", os.Getpid(), romSeq.Add(1)))
+	if opt.SamePath {
+		// like a ROM that is rebuilt between two runs: the same file name, other contents (the file is
+		// read during construction and removed afterwards)
+		path = filepath.Join(ScratchDir(), fmt.Sprintf("rom-%d-same.gb", os.Getpid()))
+	}
 	if missing {
 		os.Remove(path)
 	} else {
